@@ -46,6 +46,8 @@ func genMain(args []string) {
 		g.genC12()
 	case "c16":
 		g.genC16()
+	case "golden":
+		g.genGolden()
 	default:
 		fmt.Fprintln(os.Stderr, "unknown suite")
 		os.Exit(2)
@@ -520,4 +522,28 @@ func scalarArgOf(n *tree.Node) string {
 		return fmt.Sprint(n.U)
 	}
 	return hx.Hex(n.Data)
+}
+
+// genGolden replays the frozen corpus captured at the pinned commit (/verif/golden/c08.txt:
+// "<program>\t<hex>" per line): the bytes must be the same today.
+func (g *genState) genGolden() {
+	path := os.Getenv("VERIF_GOLDEN")
+	if path == "" {
+		path = "/verif/golden/c08.txt"
+	}
+	f, err := os.Open(path)
+	if err != nil {
+		fmt.Fprintln(os.Stderr, "golden corpus missing:", err)
+		os.Exit(2)
+	}
+	defer f.Close()
+	sc := bufio.NewScanner(f)
+	sc.Buffer(make([]byte, 1<<20), 1<<24)
+	for sc.Scan() {
+		parts := strings.SplitN(sc.Text(), "\t", 2)
+		if len(parts) != 2 {
+			continue
+		}
+		g.emit("golden", "w,g,y="+parts[1], parts[0])
+	}
 }
